@@ -9,6 +9,7 @@ import (
 	"time"
 
 	"github.com/acquirecloud/golibs/container/lru"
+	"github.com/acquirecloud/golibs/zverif/vsync"
 )
 
 // Op is one cache call. Kind: G GetOrCreate, R Remove, C Clear.
@@ -136,6 +137,8 @@ func (f expFront) FirstCost() int  { return lru.VerifFirstCost(f.c.Cache.ECache)
 func (f expFront) Order() []string { return lru.VerifOrder(f.c.Cache.ECache) }
 
 // New builds a fresh cache of the given kind and capacity.
+func init() { vsync.DeterministicPools = true }
+
 func New(kind string, capa, keys int) *Sys {
 	s := &Sys{Kind: kind, Cap: capa, Keys: keys}
 	create := func(pk int) (int, int, error) {
